@@ -1191,7 +1191,17 @@ func (vm *VirtualMachine) cloneCallAsync(
 	if err != nil {
 		return nil, err
 	}
-	return object.NewThread(clone.initContext(ctx), fn, args), nil
+	thread := object.NewThread(clone.initContext(ctx), fn, args)
+	if ctx.Done() != nil {
+		// A clone never calls start(), so nothing else makes the code it runs
+		// notice that the context is done. This goroutine ends when the
+		// thread finishes or the context is done, whichever comes first.
+		go func() {
+			thread.Wait(ctx)
+			atomic.StoreInt32(&clone.halt, 1)
+		}()
+	}
+	return thread, nil
 }
 
 // Clones the VM and then calls the function synchronously in the clone.
